@@ -104,6 +104,7 @@ fn replay(args: &[String]) -> i32 {
             "phys": phys.describe(), "key_alpha": conc.key_alpha, "val_alpha": conc.val_alpha,
             "blob": blob.is_some(), "filter": meta.get("filter").cloned().unwrap_or(json!([])),
             "shared": share_pairs,
+            "fault_line": meta.get("fault_line").cloned().unwrap_or(json!(0)),
             "big": blob.as_ref().map_or(vec![], |b| (1..=6000i64).filter(|v| conc.val_len(*v) >= b.threshold as usize).collect::<Vec<_>>())},
             "ret": "ok", "rk": "ok", "ro": false, "info": {}, "st": sess.project(), "obs": sess.observe()});
         Ok((sess, ops, reset, dir))
@@ -151,7 +152,10 @@ fn replay(args: &[String]) -> i32 {
                         share = Some(sess.shared.clone());
                     }
                     if flush_steps {
-                        writeln!(wr, "{reset}").expect("write");
+                        // the line, then a one-byte write of the newline: the step marker
+                        write!(wr, "{reset}").expect("write");
+                        wr.flush().expect("flush");
+                        wr.write_all(b"\n").expect("write");
                         wr.flush().expect("flush");
                     }
                     sessions.push((sess, ops, vec![reset], dir, false));
@@ -172,7 +176,9 @@ fn replay(args: &[String]) -> i32 {
                 let op = s.1[j].clone();
                 let (rec, stop) = step(&mut s.0, &op);
                 if flush_steps {
-                    writeln!(wr, "{rec}").expect("write");
+                    write!(wr, "{rec}").expect("write");
+                    wr.flush().expect("flush");
+                    wr.write_all(b"\n").expect("write");
                     wr.flush().expect("flush");
                 }
                 s.2.push(rec);
